@@ -126,10 +126,10 @@ Print Assumptions C02_lines_oracle.
 
 (** ... and its loop never indexes the lines or a line out of range ([None] = the Go code would panic) for a node
     whose line and column count from 1 and a minimum column >= 1 (every call site passes 1), whatever its style
-    (block scalar or not) and anchor. *)
+    (block scalar, double-quoted or not) and anchor. *)
 Theorem C02_positions_total :
   forall lines n mc, 1 <= n_line n -> 1 <= n_col n -> 1 <= mc ->
-    forall block anchor_len, pos_lines lines (n_value n) (n_line n) (n_col n) mc block anchor_len <> None.
+    forall block anchor_len dq, pos_lines lines (n_value n) (n_line n) (n_col n) mc block anchor_len dq <> None.
 Proof. exact pos_lines_total. Qed.
 Print Assumptions C02_positions_total.
 
